@@ -6,6 +6,7 @@ import (
 	"fmt"
 	"math"
 	"math/big"
+	"regexp"
 	"strconv"
 	"strings"
 	"unicode"
@@ -281,6 +282,26 @@ func valueJ(f string, v interface{}) interface{} {
 			return floatArgJ(float64(x), f)
 		case uint64:
 			return floatArgJ(float64(x), f)
+		}
+	}
+	if f != "" && (f[0] == 'I' || f[0] == 'U') {
+		// a float argument of an integer item (not a documented argument type): the integer it denotes, if it is one
+		var fv float64
+		isF := true
+		switch x := v.(type) {
+		case float64:
+			fv = x
+		case float32:
+			fv = float64(x)
+		default:
+			isF = false
+		}
+		if isF {
+			if math.IsNaN(fv) || math.IsInf(fv, 0) || fv != math.Trunc(fv) {
+				return J{"neg": false, "dec": decDigits("1208925819614629174706176"), "frac": true} // in no integer item's domain
+			}
+			bi, _ := new(big.Float).SetFloat64(fv).Int(nil)
+			return J{"neg": bi.Sign() < 0, "dec": decDigits(new(big.Int).Abs(bi).String())}
 		}
 	}
 	switch x := v.(type) {
@@ -879,6 +900,40 @@ func boundaryInts() [][2]uint64 {
 	return r
 }
 
+var genNameRe = regexp.MustCompile(`^(.*)\[(\d{1,2})\]$`)
+
+// generateName makes the library generate the name n itself, if n has the shape of a generated name: base[k] by
+// expanding an ellipsis behind a variable called base, ...[k] by leaving k+2 ellipses open in one fill (they are numbered
+// in order of appearance). What is refused is ignored: the point is that the library has seen, made and accepted the string
+// in its legitimate role before it meets it in a role where it must be refused.
+func generateName(n string) {
+	m := genNameRe.FindStringSubmatch(n)
+	if m == nil {
+		return
+	}
+	k, _ := strconv.Atoi(m[2])
+	if k > 20 {
+		return
+	}
+	try(func() {
+		if m[1] == "..." {
+			kids := []interface{}{ast.NewUintNode(1, "gn_v")}
+			for j := 0; j < k+2; j++ {
+				name := "..."
+				if j > 0 {
+					name = fmt.Sprintf("...[%d]", 100+j)
+				}
+				kids = append(kids, ast.NewListNode(ast.NewUintNode(1, j), name))
+			}
+			ast.NewListNode(kids...).FillVariables(map[string]interface{}{"gn_v": 1, "...[150]": 0})
+			// ... and with one of them filled, so that the others are renumbered during an expansion
+			ast.NewListNode(append(kids, "...[99]")...).FillVariables(map[string]interface{}{"...[99]": 1})
+			return
+		}
+		ast.NewListNode(ast.NewUintNode(1, m[1]), "...").FillVariables(map[string]interface{}{"...": k + 1})
+	})
+}
+
 // ctor: factories called with values at and beyond every boundary, in every accepted Go type.
 // One case = one (format, value); the value is tried in every Go type that can hold it.
 func driverCtor(c *Ctx) {
@@ -969,6 +1024,22 @@ func driverCtor(c *Ctx) {
 			idx++
 		}
 	}
+	// floats handed to integer items (numbers from a JSON document arrive as float64): not a documented argument type -
+	// refused, or the integer the float denotes stored exactly; never a fraction cut off, never the range exceeded
+	for _, f := range []string{"I1", "I2", "I4", "I8", "U1", "U2", "U4", "U8"} {
+		for _, v := range []float64{0, 1, -1, 127, 128, 255, 256, -128, -129, 32768, 65536, 2147483648, 4294967296, 9007199254740992,
+			9223372036854775808, -9223372036854775808, 9223372036854774784, 18446744073709551616, 18446744073709549568, 1.5, -0.5,
+			1e300, math.NaN(), math.Inf(1)} {
+			if c.want(idx) {
+				emit(f, v, J{"foreign": true})
+			}
+			idx++
+			if float64(float32(v)) == v && c.want(idx) {
+				emit(f, float32(v), J{"foreign": true})
+			}
+			idx++
+		}
+	}
 	// floats: every boundary of F4 and F8, as float64 and float32
 	fl := []float64{0, math.Copysign(0, -1), 1, -1, 0.1, math.MaxFloat32, -math.MaxFloat32, math.MaxFloat32 * (1 + 1e-9),
 		math.Nextafter(math.MaxFloat32, math.Inf(1)), math.Nextafter(math.MaxFloat32, 0), 3.4028235677973366e38, 1e39, -1e39,
@@ -1020,6 +1091,7 @@ func driverCtor(c *Ctx) {
 	}
 	for _, n := range names {
 		if c.want(idx) {
+			generateName(n) // the library has produced this very name itself before, where it can
 			ev := J{"ev": "ctorname", "name": chars(n)}
 			for k, f := range map[string]func() ast.ItemNode{
 				"array":  func() ast.ItemNode { return ast.NewUintNode(1, n) },
